@@ -84,7 +84,7 @@ def loaders_case(draw):
     n = draw(st.one_of(st.integers(1, 12), st.integers(1, 80)))
     return {"kind": "loaders", "n": n, "seed": draw(st.integers(0, 2**31 - 1)), "which": draw(st.sampled_from(["tlt", "dose", "mdoc_dose", "gctf", "ctffind4"])),
             "permute": draw(st.booleans()), "phase": draw(st.booleans()), "comments": draw(st.integers(0, 6)), "sort_mdoc": draw(st.booleans()),
-            "as": draw(st.sampled_from(["file", "file", "array", "list"])), "extra_cols": draw(st.booleans())}
+            "as": draw(st.sampled_from(["file", "file", "array", "list", "csv"])), "extra_cols": draw(st.booleans())}
 
 
 @st.composite
@@ -305,6 +305,43 @@ def run_mdoc(c, out):
                 changed_type = isinstance(r3[k], str) != isinstance(r1[k], str)
                 out.fail("mdoc_roundtrip:cell_became_text" if changed_type and isinstance(r3[k], str) else "mdoc_roundtrip:cell_changed", f"key {k}: {r1[k]!r} -> {r3[k]!r}")
                 return
+    # kept/removed views partition the table as the model says
+    ok, km = call(out, "kept_images", lambda: (m.kept_images(), m.removed_images()))
+    if ok:
+        tag_of = lambda fr_: [int(v.rsplit("_", 1)[1].split(".")[0]) for v in fr_["SubFramePath"].tolist()]
+        out.check(tag_of(km[0]) == [t for t, r_ in model if not r_] and tag_of(km[1]) == [t for t, r_ in model if r_], "mdoc_views:kept_removed_do_not_partition_as_flagged", "")
+    # writing with removed=True keeps every image, in table order
+    ok, _ = call(out, "Mdoc.write(removed=True)", lambda: m.write("all.mdoc", overwrite=True, removed=True))
+    if ok:
+        ok, m4 = call(out, "Mdoc(reread all)", lambda: md.Mdoc("all.mdoc"))
+        if ok:
+            out.check([int(v) for v in m4.imgs["ZValue"].tolist()] == zmodel, "mdoc_write_all:sections_not_all_images_in_table_order", f"{m4.imgs['ZValue'].tolist()[:8]} vs {zmodel[:8]}")
+        # the tilt-angle helper: the file's angles in file order, and one per line in its output file
+        ok, ta = call(out, "get_tilt_angles", lambda: md.get_tilt_angles("all.mdoc", output_file="all.tlt"))
+        if ok:
+            want_t = [tilts[t] for t, _ in model]
+            out.check(close32(ta, want_t), "get_tilt_angles:not_file_order", lambda: f"{np.ravel(ta)[:5]} vs {want_t[:5]}")
+            try:
+                got_f = [float(x) for x in open("all.tlt").read().split()]
+                out.check(close32(got_f, want_t), "get_tilt_angles:output_file", "")
+            except Exception as e:
+                out.fail("get_tilt_angles:output_file_unreadable", repr(e))
+        # no path given: an instance read from a file writes back to that file - only when allowed to overwrite it
+        ok, m5 = call(out, "Mdoc(all)", lambda: md.Mdoc("all.mdoc"))
+        if ok:
+            before_txt = open("all.mdoc").read()
+            try:
+                m5.write()
+                out.fail("mdoc_write:overwrote_own_file_without_permission", "")
+            except Exception:
+                out.check(open("all.mdoc").read() == before_txt, "mdoc_write:own_file_changed_although_refused", "")
+            m5.sort_by_tilt(reset_z_value=True)
+            ok, _ = call(out, "Mdoc.write(default path)", lambda: m5.write(overwrite=True))
+            if ok:
+                ok, m6 = call(out, "Mdoc(reread own)", lambda: md.Mdoc("all.mdoc"))
+                if ok:
+                    out.check(close32(m6.imgs["TiltAngle"].to_numpy(dtype=float), sorted(tilts[t] for t, _ in model)) and [int(v) for v in m6.imgs["ZValue"].tolist()] == list(range(len(model))),
+                              "mdoc_write:default_path_does_not_hold_the_instance", "")
     out.check(not os.path.exists("never.mdoc"), "noop", "")
     # overwrite protection
     try:
@@ -387,6 +424,18 @@ def run_loaders(c, out):
                 except Exception:
                     pass
             ok, r = call(out, "total_dose_load", lambda: ioutils.total_dose_load("dose.txt"))
+        elif c["as"] == "csv":
+            # the table form: first column = row label, a CorrectedDose column and optionally a Removed flag per image
+            removed = rng.random(n) < 0.3 if c["extra_cols"] else np.zeros(n, bool)
+            if removed.all():
+                removed[0] = False
+            with open("dose.csv", "w") as f:
+                f.write(",TiltAngle,CorrectedDose" + (",Removed" if c["extra_cols"] else "") + "\n")
+                for i in range(n):
+                    f.write(f"{i},{i * 3.0 - 30:.1f},{d[i]:.3f}" + (f",{bool(removed[i])}" if c["extra_cols"] else "") + "\n")
+            out.label("dose_csv_with_removed" if removed.any() else "dose_csv")
+            ok, r = call(out, "total_dose_load(csv)", lambda: ioutils.total_dose_load("dose.csv"))
+            d = d[~removed]
         else:
             inp = d.copy() if c["as"] == "array" else d.tolist()
             ok, r = call(out, "total_dose_load", lambda: ioutils.total_dose_load(inp))
@@ -442,6 +491,10 @@ def run_loaders(c, out):
         ok, r2 = call(out, "defocus_load(frame)", lambda: ioutils.defocus_load(fr))
         if ok:
             out.check(r2.equals(fr), "defocus_load:frame_changed", "")
+        arr = fr.to_numpy()
+        ok, r3 = call(out, "defocus_load(array)", lambda: ioutils.defocus_load(arr.copy()))
+        if ok:
+            out.check(list(r3.columns) == list(fr.columns) and np.array_equal(r3.to_numpy(), arr), "defocus_load:array_changed_or_columns_misnamed", lambda: f"{list(r3.columns)}")
 
 
 # ------------------------------------------------------------------------------------------------ wedge lists
